@@ -14,27 +14,27 @@ HERE = os.path.dirname(os.path.dirname(os.path.abspath(__file__)))
 # id -> (level, technique, level text, level note, design ref)
 T = {
  'C01': ('exploration',
-         'exhaustive enumeration of packet sequences x thresholds x cipher x read segmentations (all compositions of short streams, all 1-/2-cut partitions and 1-byte reads of long ones) on the real reader/writer, judged by an independent framing codec',
+         'exhaustive enumeration of packet sequences x thresholds x cipher x read segmentations (all compositions of short streams, all 1-/2-cut partitions and 1-byte reads of long ones) on the real reader/writer, judged by an independent framing codec; two real connections in one process with the frame of one cut at every position and a frame of the other in the gap',
          'Every packet sequence over a small alphabet, under every threshold/cipher setting, is pushed through the real writer and the real stream reader under every read segmentation within the stated bounds; an independent deframer/framer decides. Bounded-exhaustive, not sampled.',
          'Trusted: vf/refproto (framing, hand-built CFB8) and stdlib zlib; bounds on sequence length and stream length stated in the evidence.', '3/C01'),
  'C02': ('exploration',
-         'exhaustive enumeration of value domains (all 8/16-bit values, structured bit-pattern alphabets for wider types, all strict prefixes) against an independent codec',
+         'exhaustive enumeration of value domains (all 8/16-bit values, structured bit-pattern alphabets for wider types, all strict prefixes) against an independent codec; construction, failure and re-entrancy histories; preemption-bounded exhaustive exploration of all schedules of pairs of codec calls on two threads (line-level and instruction-level scheduling points, cold forks for first use)',
          'All values of small domains and a structured boundary alphabet of wide domains are encoded and decoded by the real types and compared byte-for-byte with an independent codec; every strict prefix must raise.',
          'Trusted: vf/refproto/codec.py (no struct, hand IEEE-754/UTF-8). 32/64-bit domains are covered by structured alphabets, not 2^32 cases.', '3/C02'),
  'C03': ('exploration',
-         'exhaustive enumeration of all byte strings up to length 2/3 and all continuation-bit shapes up to 13 bytes for decoding, all n < 2^16/2^21 plus power-of-two neighbourhoods for encoding, under a step horizon for termination',
+         'exhaustive enumeration of all byte strings up to length 2/3 and all continuation-bit shapes up to 13 bytes for decoding, all n < 2^16/2^21 plus power-of-two neighbourhoods for encoding, under a step horizon for termination; every case also through the context entry points and through buffered / raw / socket streams under every segmentation; failure and re-entrancy histories; all schedules of pairs of VarInt/VarLong calls within a preemption bound',
          'The decoder is run on every short byte string and every continuation shape, the encoder on every small integer and every width boundary; reads are counted on an instrumented stream; a step horizon turns non-termination into a verdict.',
          'Trusted: vf/refproto/codec.py varnum; non-termination is judged by a horizon of 64 output bytes / reads, far above the 10-byte maximum.', '3/C03'),
  'C04': ('exploration',
-         'exhaustive product of per-axis boundary sets and single/adjacent-bit 64-bit words over all 369 known protocol versions, against independent integer packing',
+         'exhaustive product of per-axis boundary sets and single/adjacent-bit 64-bit words over all 369 known protocol versions, against independent integer packing; sessions of several versions in fixed orders in throw-away processes, context and packet reuse histories, all schedules within a preemption bound of a version change racing a codec call and of two concurrent encoders',
          'Full boundary product x every known version for Position, chunk-section and record packings; layout per version is observed and must switch once between 404 and 477.',
          'Trusted: vf/refproto/position.py (plain integer arithmetic).', '3/C04'),
  'C05': ('exploration',
-         'exhaustive enumeration of (supported version x registered packet class x variant x per-field boundary value) round trips and of all field-list programs up to length 2/3 over the library type alphabet',
+         'exhaustive enumeration of (supported version x registered packet class x variant x per-field boundary value) round trips and of all field-list programs up to length 2/3 over the library type alphabet and every grouping into definition entries; write histories; sessions of several versions in throw-away processes; all schedules within a preemption bound of pairs of packet codec calls, incl. concurrent first use in cold forks',
          'Every registered class at every supported version is written and read back with one-field-at-a-time boundary variation and all structural variants; user-defined definitions are enumerated as programs.',
          'Oracle is round-trip equality plus exact consumption and id agreement (byte-exactness is C02/C07).', '3/C05'),
  'C06': ('exploration',
-         'complete enumeration of the finite configuration space (250 versions x 4 states x 2 directions)',
+         'complete enumeration of the finite configuration space (250 versions x 4 states x 2 directions), walked in several orders and through long-lived / re-assigned contexts; all schedules within a preemption bound of two threads building tables (warm) and reactors (cold forks)',
          'The space is finite and enumerated completely; nine collisions at development snapshots are recorded as known findings.',
          'Trusted: nothing beyond Python set/dict semantics.', '3/C06'),
  'C07': ('exploration',
@@ -42,15 +42,15 @@ T = {
          'pyCraft bytes vs reference bytes, reference bytes decoded by pyCraft, and reactor id lookup, for every listed release.',
          'Trusted: vf/refproto/releases.py, transcribed by hand; entries that could not be established with confidence are left out and listed as not judged.', '3/C07'),
  'C08': ('model_checking',
-         'explicit-state BFS over run-time record extensions and re-initialisations on the real module, plus complete enumeration of all pairs/triples of known versions, against an independent recomputation',
+         'explicit-state BFS over run-time record extensions and re-initialisations on the real module, plus complete enumeration of all pairs/triples of known versions, against an independent recomputation (append, insert, re-list, replace, swap, out-of-order numbers; in place and by rebinding the list) with long-lived contexts observed across rebuilds',
          'All pairs (and triples) of known protocol numbers for the order laws; BFS over histories of record extension + initglobals with state deduplication for the derived tables.',
          'Trusted: the reference recomputation (rank = index of first occurrence). Module state is snapshotted and restored around every path.', '3/C08'),
  'C09': ('model_checking',
-         'exhaustive enumeration of (allowed set x default x server status behaviour x delivery) conversations of the real Connection over a virtual network under a controlled scheduler, judged by an independent server and a reference negotiation function',
+         'exhaustive enumeration of (allowed set x default x server status behaviour x delivery) conversations of the real Connection over a virtual network under a controlled scheduler, judged by an independent server and a reference negotiation function; sequences of 2-4 operations on one Connection object and on 2-3 objects created up front',
          'Every configuration in the stated alphabet is executed on the real client against an independent reference server over vnet; all environment answers are owned by the harness.',
          'Trusted: vf/vnet (conformance-tested against real sockets), vf/refserver, vf/pysched canonical schedule.', '3/C09'),
  'C10': ('model_checking',
-         'exhaustive enumeration of server login scripts up to a length bound x versions x token modes x delivery modes on the real client over a virtual network, judged by an independent server (own framing, CFB8, RSA)',
+         'exhaustive enumeration of server login scripts up to a length bound x versions x token modes x delivery modes on the real client over a virtual network, judged by an independent server (own framing, CFB8, RSA); complete product of (first login script, transition, second use) on the same Connection object',
          'All admissible orders of optional login steps within the length bound are executed; the independent server decodes every client byte.',
          'Trusted: refproto framing/CFB8/javahash, cryptography RSA + AES block primitive; vnet; canonical schedule.', '3/C10'),
  'C11': ('model_checking',
@@ -58,39 +58,39 @@ T = {
          'All histories over the event alphabet up to the bound on boundary versions, a fixed family on every supported version, every batch length up to the bound.',
          'Trusted: refserver; for non-release versions packet ids come from pyCraft (ids for releases are C07).', '3/C11'),
  'C12': ('model_checking',
-         'stateless preemption-bounded exploration (CHESS-style) of all thread schedules of the real Connection under a controlled scheduler with points at every lock, socket, queue and shared-attribute access',
+         'stateless preemption-bounded exploration (CHESS-style) of all thread schedules of the real Connection under a controlled scheduler with points at every lock, socket, queue and shared-attribute access; a forced write racing the switch to encryption; an outgoing listener that disconnects from inside a write',
          'All schedules with at most 2 (quick) / 3 (thorough) preemptions of small multi-writer programs, each judged by an independent deframer of the server-side byte log.',
          'Trusted: vf/pysched (replay-determinism checked per run), vnet; CPython GIL atomicity of single bytecodes; nothing is claimed beyond the preemption bound.', '3/C12'),
  'C13': ('model_checking',
-         'exhaustive enumeration of listener configurations x incoming packet kinds on the real client over a virtual network against a reference dispatch function',
+         'exhaustive enumeration of listener configurations x incoming packet kinds on the real client over a virtual network against a reference dispatch function; registration routes and kinds of callable; send-fault families; preemption-bounded exhaustive schedules of concurrent registration and of disconnect() racing a dispatch',
          'All configurations with up to 2 listeners per class over a type-filter hierarchy, each with/without ignore, for each packet kind in login and play.',
          'Trusted: the reference dispatch function (20 lines), vnet event log for before/after-write ordering.', '3/C13'),
  'C14': ('fault_enumeration',
-         'exhaustive enumeration of (fault origin x handler chain x final handler) on the real networking thread under the controlled scheduler, against a reference interpreter of the documented try/except chain',
+         'exhaustive enumeration of (fault origin x handler chain x final handler) on the real networking thread under the controlled scheduler, against a reference interpreter of the documented try/except chain x configuration routes, with and without a write error pending; preemption-bounded exhaustive schedules of a handler that hands over to a user thread and blocks',
          'Every fault origin crossed with every handler chain up to the length bound and every final-handler mode.',
          'Trusted: the reference interpreter; pysched thread wrapper to observe re-raise.', '3/C14'),
  'C15': ('fault_enumeration',
-         'exhaustive enumeration of every prefix length of each reference server byte stream followed by end-of-stream, on the real client over a virtual network with visible waiting',
+         'exhaustive enumeration of every prefix length of each reference server byte stream followed by end-of-stream, on the real client over a virtual network with visible waiting; what later connections of the same object deliver and send after the cut; refused reconnection',
          'Every cut offset of every reference conversation, eager and byte-wise delivery; termination, bounded reads after EOF, error report or documented fallback, and no partial packet delivered.',
          'Trusted: vnet EOF semantics (conformance-tested), step horizon for livelock.', '3/C15'),
  'C16': ('model_checking',
-         'explicit-state BFS over call histories on the real Connection plus preemption-bounded schedule exploration of two user threads, with invariants monitored at every point',
+         'explicit-state BFS over call histories on the real Connection plus preemption-bounded schedule exploration of two user threads, with invariants monitored at every point; start states inside a conversation (negotiation, encryption / compression switch, status query in flight, silent server, reconnecting handler) with real-time-order oracles',
          'BFS to depth bound over the lifecycle call alphabet x server kinds; all schedules up to the preemption bound for two-thread programs.',
          'Trusted: pysched, vnet; canonical state abstraction is over-fine by construction (all attributes).', '3/C16'),
  'C17': ('exploration',
-         'exhaustive enumeration of all server ids up to length 2/3 over a 40-symbol alphabet x secrets x keys, against an independent Java BigInteger formatter',
+         'exhaustive enumeration of all server ids up to length 2/3 over a 40-symbol alphabet x secrets x keys, against an independent Java BigInteger formatter; the hash actually sent / posted over login histories on one Connection (stubbed token, and a real token over a recording HTTP stand-in)',
          'All inputs in the stated product; digest classes (negative, leading zero nibble/byte) are counted to show the interesting cases occur.',
          'Trusted: hashlib.sha1 and vf/refproto/javahash.py (checked on the three published vectors).', '3/C17'),
  'C18': ('exploration',
-         'exhaustive enumeration of all compositions of short streams into calls and all interleavings of both directions, all 1-/2-cut partitions of long streams, all token lengths 1..64, against hand-built CFB8 and an independent RSA key holder',
+         'exhaustive enumeration of all compositions of short streams into calls and all interleavings of both directions, all 1-/2-cut partitions of long streams, all token lengths 1..64, against hand-built CFB8 and an independent RSA key holder; retaining transports, one-shot faults at every k-th raw call, login histories with a fresh-secret oracle; preemption-bounded exhaustive schedules of send || recv on one wrapper pair and of two overlapping key exchanges',
          'Every split of every stream in the stated family; ciphertext must equal the hand-built CFB8 byte for byte.',
          'Trusted: AES single-block primitive (ECB) from cryptography, our CFB8 shift register (NIST SP800-38A vector), RSA decryption by cryptography. Randomness quality of os.urandom is out of scope.', '3/C18'),
  'C19': ('model_checking',
-         'explicit-state BFS to fixpoint over (token field-presence state x operation x scripted HTTP reply) on the real AuthenticationToken through real requests machinery, against a reference token',
+         'explicit-state BFS to fixpoint over (token field-presence state x operation x scripted HTTP reply) on the real AuthenticationToken through real requests machinery, against a reference token; replies with format metacharacters; preemption-bounded exhaustive schedules of concurrent token operations',
          'All 32 initial presence states, all operations, all reply shapes; every transition compared with the reference.',
          'Trusted: the reference token model; requests transport adapter (quick) / local http.server (thorough).', '3/C19'),
  'C20': ('model_checking',
-         'explicit-state BFS to fixpoint over tracker packet histories on the real tracker objects against dict/list references; complete enumeration of flag values, alias kinds and vector/record laws over boundary products',
+         'explicit-state BFS to fixpoint over tracker packet histories on the real tracker objects against dict/list references; complete enumeration of flag values, alias kinds and vector/record laws over boundary products; every update shape on small maps at depth 2; record families in several orders of first use',
          'BFS over player-list and map histories with deduplication; all 32 flag combinations; all values 0..255 for every BitFieldEnum plus generated enums.',
          'Trusted: reference trackers (dict/list).', '3/C20'),
 }
